@@ -176,3 +176,58 @@ def literal(model, rep, rule):
                   witness='x[-1] = v inside an if: Constant(-1) re-parses as '
                   'UnaryOp(USub, Constant(1))')
   return n
+
+
+def fresh(model, rep, rule):
+  """QnResolver is re-run after every converter pass, on trees whose nodes were
+  copied together with their annotations (ast_util copies annotations, renames
+  keep them): every handler must *set* the QN annotation from the node as it is
+  now, never keep one that is already there."""
+  from sa import formula
+  cls = model.cls(QNREL, 'QnResolver')
+  rep.touch(QNREL)
+  for hname in ('visit_Name', 'visit_arg', 'visit_Attribute', 'visit_Subscript'):
+    h = cls.methods.get(hname)
+    if h is None:
+      raise core.AnalysisError('QnResolver.%s not found' % hname)
+    p0 = h.params()[0]
+    sets = [c for c in ast.walk(h.node) if isinstance(c, ast.Call) and
+            core.dotted(c.func) == 'anno.setanno' and len(c.args) >= 2 and
+            core.norm(c.args[0]) == p0 and core.norm(c.args[1]) == 'anno.Basic.QN']
+
+    def at(e):
+      t = core.norm(e)
+      if t.startswith('anno.hasanno(%s, anno.Basic.QN' % p0):
+        return 'HAS_OWN'
+      return None
+    ok = bool(sets)
+    conds = []
+    for c in sets:
+      f = formula.condition_formula(h.node, c, at)
+      conds.append(str(f))
+      # the node's own (possibly stale) annotation must not decide
+      lo = formula.satisfiable(f & formula.atom('HAS_OWN'))
+      hi = formula.satisfiable(f & ~formula.atom('HAS_OWN'))
+      if 'HAS_OWN' in f.atoms and not (lo and hi and formula.equivalent(
+          f & formula.atom('HAS_OWN') | f & ~formula.atom('HAS_OWN'), f)[0] and
+                                       _independent(f)):
+        ok = False
+    if hname in ('visit_Name', 'visit_arg'):
+      ok = ok and all(c == 'T' for c in conds)
+    rep.check(ok, rule, '%s:sets-qn(%s)' % (cls.site, hname),
+              'the qualified name of a node must be recomputed on every run: a '
+              'node that still carries the annotation of the node it was copied '
+              'from (renamed symbols, template copies) would keep the old name',
+              {'conditions': conds}, line=h.node.lineno,
+              witness='resolve, ast_util.rename_symbols, resolve again')
+
+
+def _independent(f):
+  from sa import formula
+  others = sorted(f.atoms - {'HAS_OWN'})
+  for r in formula.rows(others):
+    a = dict(r, HAS_OWN=True)
+    b = dict(r, HAS_OWN=False)
+    if f.fn(a) != f.fn(b):
+      return False
+  return True
